@@ -44,6 +44,18 @@ CHECKS = {
             'PoolError only with every worker dead or closed; partial/normal results duplicate-free subsets of the inputs; with retry off every missing input was handed to a worker that died - evaluated on every real leaf of the seeded and exhaustive script exploration, retry on/off, return_results on/off, pre-run deaths, poison inputs.',
             'As C07. Known finding: with retry off an input refused by the user enqueue_fn is dropped silently.',
             '§7 C08'),
+    'C05': ('Lean 4 proof (induction over the enqueue list; list lemmas for the argument merge) + model/impl correspondence on real persistent workers',
+            'C05_stream / C05_ends_once / C05_pristine prove for any defaults, any target function and any number of accepted enqueues that the delivered values are the target applied to the defaults overlaid with each enqueue, in order, exactly once, with counters 1..n, final counter n and exactly one end marker; merge_fewer / merge_more / kwmerge_lookup characterise the overlay for fewer / as many / more extras and for keyword overrides. Every run compares the merge with the real do_work on generated (defaults list|tuple, kwargs, mixed-shape enqueues) for thread/process/remote kinds with echo and argument-mutating targets, and exercises op sequences (enqueue/next_result/call/close/wait), enqueue after close, after wait and after the worker died on its own.',
+            'The child loop of the model is hand-written (its line-level behaviour is validated through the regenerated programs in C01/C06). Values are tokens; deepcopy/pickling of values is CPython.',
+            '§7 C05'),
+    'C06': ('Lean 4 proof (induction over inputs for every stop point; kernel-decided tables over regenerated loop programs) + real terminate/SIGKILL landed at every line event of the three persistent kinds',
+            'C06_prefix and C06_ends prove on the stream model, for any inputs and any stop (iteration, phase, graceful or SIGKILL), that the obtainable values are the first j expected ones with counters 1..j and that the message sequence is items followed by one end marker or (SIGKILL) EOF. C06_generated_* / C06_graceful_ends_* decide the same on the programs regenerated from /repo (two items) at every landing point; C06_counterexample_thread proves the lost-end-marker case (known finding). Every run lands real terminate()/SIGKILL at every line event, with results read after death, with a consumer blocked before the death, and through a raw results pipe as the Pool does.',
+            'Partial: the unbounded theorems are about the hand-written stream model; the regenerated programs are covered for two items (finite instance) and by correspondence. Known finding: thread kind, terminate landing inside _cleanup with a blocked consumer.',
+            '§7 C06'),
+    'C16': ('Lean 4 proof over regenerated run-loop programs (complete landing tables) + real landing runs with state-assigning workers, restart chains, delayed state message',
+            'C16_carried_*: whenever the parent receives a final report the state it stores is the child\'s state at the end of its life, and without a report it keeps the initial value - for every target behaviour, event kind and landing point; C16_graceful_reports_*: return, exception and graceful terminate at every reachable landing point outside the loop\'s own handlers do deliver the state. Every run uses state-assigning subclasses of the six classes: user_state read while the child is held alive at the landing point and after death is compared with the model; chains of restarts / re-creations, restart of a busy worker, assignment from the parent, and a frontend delayed between result and state message are exercised.',
+            'Partial: persistent loops by correspondence; values abstracted to initial/last. Known finding: remote kind shows the final state slightly before is_alive() turns False.',
+            '§7 C16'),
 }
 NOT_YET = 'check not built yet in this session (work in progress; see DESIGN.md §13 for the order)'
 
